@@ -61,7 +61,7 @@ func HarnessC10NoRedirectClient() {
 	c10rt.calls = 0
 	c10rt.status = int(vNondetInt("status", 200, 599))
 	c10rt.hasLoc = vNondetBool("hasLoc")
-	n := int(vConcretize(vNondetInt("loclen", 0, 3)))
+	n := int(vConcretize(vNondetInt("loclen", 0, vHi(3, 4))))
 	c10rt.loc = vNondetString("loc", n)
 	for i := 0; i < n; i++ {
 		vAssume(c10rt.loc[i] > ' ' && c10rt.loc[i] < 0x7f) // a printable header value
